@@ -9,7 +9,7 @@ package utils
 //vf:job C02 quick VF_C02_BigKey t=0..6 n=2
 //vf:job C02 quick VF_C02_BigKey t=11..12 n=2
 //vf:job C02 quick VF_C02_BigKey t=14..15 n=1
-//vf:job C02 thorough VF_C02_BigKey t=7..10 n=2
+//vf:job C02 thorough VF_C02_BigKey t=7..10 n=2 fresh=1
 //vf:job C02 thorough VF_C02_BigKey t=13 n=2
 //vf:job C02 quick VF_C02_BigKey t=2 n=2 exp=0,2
 //vf:job C02 quick VF_C02_QuicklistRoute n=1..2
@@ -17,7 +17,9 @@ package utils
 //vf:job C02 quick VF_C02_BadFormat t=0..3
 //vf:job C02 quick VF_C02_Lua
 //vf:job C02 quick VF_C02_CompareVersion
-//vf:job C02 thorough VF_C02_BigKey t=0..13 n=3
+//vf:job C02 thorough VF_C02_BigKey t=0..6 n=3
+//vf:job C02 thorough VF_C02_BigKey t=11..12 n=3
+//vf:job C02 thorough VF_C02_BigKey t=10 n=3 fresh=1
 //vf:job C02 thorough VF_C02_BigKey t=4..5 n=2 scores=7
 //vf:job C02 thorough VF_C02_Flush count=99..101
 //vf:job C02 thorough VF_C02_Flush count=200..201
@@ -25,7 +27,7 @@ package utils
 //vf:stub C02 time.Now: fixed instant (the TTL arithmetic is exercised through a symbolic ExpireAt and three ShiftTime values instead of a symbolic clock: 64-bit multiplication/division by 10^6/10^9 of a symbolic clock is not decided by any back end)
 //vf:stub C02 target connection: the model target (tiny Redis); RESTORE answers BUSYKEY iff the key exists and REPLACE is absent, "Bad data format" iff configured
 //vf:assume C02 a pre-existing key is a list/hash/string with contents different from the source's
-//vf:outside C02 UCloud key rewriting; cluster target driver; strings longer than 2 bytes; more than 3 elements except the flush-batch family; zipmap entries of 253 bytes and more
+//vf:outside C02 ziplist skeletons (t=7..9) with three entries, and with two entries against an existing key (the two-entry runs use an absent key and policy rewrite: 10^4 paths per skeleton otherwise); wide ziplist integers with more than one entry; UCloud key rewriting; cluster target driver; strings longer than 2 bytes; more than 3 elements except the flush-batch family; zipmap entries of 253 bytes and more
 
 import (
 	"math"
@@ -446,9 +448,12 @@ func VF_C02_BigKey() {
 	vfResetConf()
 	vfFixClock()
 	conf.Options.BigKeyThreshold = 0
-	policy := vfPick("policy", 3)
+	policy, pre := 1, 0
+	if vfParam("fresh", 0) == 0 {
+		policy = vfPick("policy", 3)
+		pre = vfPick("pre", 3) // 0 absent, 1 list, 2 hash
+	} // fresh=1: target key absent, policy rewrite only (longer values; the policies are covered at n <= 2)
 	conf.Options.KeyExists = vfPolicies[policy]
-	pre := vfPick("pre", 3) // 0 absent, 1 list, 2 hash
 	r := vfNewRedis()
 	key := vfBytes("key", 1)
 	vfPreKey(r, key, pre)
